@@ -6,6 +6,7 @@ from __future__ import annotations
 import itertools
 
 from mc import domains as D
+from mc.alias import receive_buffer, reuse_buffer
 from mc.rec import Rec
 from ref import tlv as R
 from units.cfdp_tlv import CONCRETE, CONDITION_CODES, HANDLER_CODES, UNITS, bt, enum_status_codes, hx
@@ -206,7 +207,10 @@ def check_generic_tlv(rec: Rec, t: int, v: bytes, nontrivial=True):
         bad("length/CfdpTlv.packet_len", obj.packet_len, len(v) + 2)
     for label, data in (("exact", ref), ("with-suffix", ref + SUFFIX)):
         try:
-            u = L.CfdpTlv.unpack(data)
+            rb = receive_buffer(data) if label != "exact" else data  # the second form: a receive buffer the caller re-uses
+            u = L.CfdpTlv.unpack(rb)
+            if label != "exact":
+                reuse_buffer(rb)
         except Exception as e:
             bad("decode/CfdpTlv.unpack/exception", [label, _exc(e)], [t, v])
             continue
@@ -247,7 +251,10 @@ def check_generic_lv(rec: Rec, v: bytes, nontrivial=True):
         bad("length/CfdpLv.packet_len", obj.packet_len, len(v) + 1)
     for label, data in (("exact", ref), ("with-suffix", ref + SUFFIX)):
         try:
-            u = L.CfdpLv.unpack(data)
+            rb = receive_buffer(data) if label != "exact" else data
+            u = L.CfdpLv.unpack(rb)
+            if label != "exact":
+                reuse_buffer(rb)
         except Exception as e:
             bad("decode/CfdpLv.unpack/exception", [label, _exc(e)], v)
             continue
@@ -339,7 +346,9 @@ def check_concrete(rec: Rec, uname: str, recipe: dict, nontrivial=True):
     paths.append((f"TlvHolder.{meth}/concrete", lambda b, recipe=None: getattr(L.TlvHolder(obj), meth)()))
     for dname, fn in paths:
         try:
-            d = fn(ref, recipe)
+            rb = receive_buffer(ref)
+            d = fn(rb, recipe)
+            reuse_buffer(rb)
         except Exception as e:
             bad(f"decode/{dname}/exception", _exc(e), exp)
             continue
